@@ -39,7 +39,9 @@ run_demo() { # $1 = label ; prints PASS/FAIL
   return 0
 }
 echo "== baseline"; run_demo clean
-git apply $SRC/patch.diff || { echo "PATCH DOES NOT APPLY"; exit 1; }
+git apply $SRC/patch.diff 2>/dev/null || git apply --3way $SRC/patch.diff || { echo "PATCH DOES NOT APPLY"; exit 1; }
+if git diff | grep -q "^+<<<<<<<"; then echo "PATCH DOES NOT APPLY (conflicts)"; exit 1; fi
+git diff > /tmp/mutout/applied-$NAME.diff
 echo "== mutated"; go build ./... || { echo "MUTANT BUILD FAILED"; exit 1; }
 run_demo mutated
 echo "== test suite with the change"
@@ -48,7 +50,7 @@ if grep -q "^FAIL\|^--- FAIL\|panic:" /tmp/mutout/suite-$NAME.out; then echo "SU
 git checkout -q -- .
 if grep -q "clean: demo PASS" $LOG && grep -q "mutated: demo FAIL" $LOG && grep -q "SUITE: PASS" $LOG; then
   mkdir -p /verif/seeded/$NAME
-  cp $SRC/patch.diff /verif/seeded/$NAME/
+  cp /tmp/mutout/applied-$NAME.diff /verif/seeded/$NAME/patch.diff
   for f in $SRC/*_test.go $SRC/demo.elk $SRC/expected_output.txt $SRC/RUN.txt; do [ -f $f ] && cp $f /verif/seeded/$NAME/; done
   python3 - <<PY
 import json
